@@ -524,7 +524,7 @@ fn main() {
     let jab = desc!("Cam16UcsJab", [(0.0, 100.0), (-50.0, 50.0), (-50.0, 50.0)], None, &[(0, 0.0, 100.0)], &[]);
     let jmh = desc!("Cam16UcsJmh", [(0.0, 100.0), (0.0, 50.0), HUE], Some(2), &[(0, 0.0, 100.0)], &[]);
 
-    let mut mm = Monitor::new("mix", "Mix / MixAssign on bare and Alpha-wrapped colours of every colour type (f32/f64): factor 0 and 1 give the ends, factors outside [0,1] equal the nearest end bit for bit, each component stays between the inputs and equals the lerp, hues travel the shorter arc by the factor's fraction; assigning and Alpha forms bit-identical to the by-value form; distinct = (type, case)");
+    let mut mm = Monitor::new("mix", "Mix / MixAssign on bare and Alpha-wrapped colours of every colour type and on PreAlpha<LinSrgb> (f32/f64): factor 0 and 1 give the ends, factors outside [0,1] equal the nearest end bit for bit, each component stays between the inputs and equals the lerp, hues travel the shorter arc by the factor's fraction; assigning and Alpha forms bit-identical to the by-value form; distinct = (type, case)");
     let mut ml = Monitor::new("lighten_darken", "Lighten / Darken (relative and fixed; by value, assigning, slices of length 0/1/7, Alpha-wrapped) for every type that offers them: value equals the documented formula, stays in range, leaves other components bit-identical, factor 1 reaches the limit, monotone over a 33-step factor ladder, darken(x) == lighten(-x) and all variants bit-identical; distinct = (type, case)");
     let mut ms = Monitor::new("saturate_desaturate", "Saturate / Desaturate with the same checks as lighten on the saturation-like component; distinct = (type, case)");
     let mut mh = Monitor::new("hue_ops_and_schemes", "ShiftHue(Assign), WithHue, SetHue, GetHue on bare, Alpha-wrapped and slice forms; complementary, split complementary, analogous (both), triadic and tetradic equal the documented hue shifts; other components bit-identical; distinct = (type, case)");
@@ -587,6 +587,48 @@ fn main() {
     }
     if only("mix") {
         for_floats!(all_mix,);
+        // premultiplied colours: the alpha is one more interpolated component
+        macro_rules! pre_mix {
+            ($T:ty, $name:expr) => {{
+                use palette::blend::PreAlpha;
+                let mut rng = ctx.rng($name, 0);
+                for it in 0..ctx.n(2000, 200_000) {
+                    let g = |r: &mut Rng| -> PreAlpha<rgb::Rgb<Lin, $T>> {
+                        let a = match r.below(4) { 0 => 0.0, 1 => 1.0, _ => r.unit() } as $T;
+                        PreAlpha { color: rgb::Rgb::new(r.unit() as $T * a, r.unit() as $T * a, r.unit() as $T * a), alpha: a }
+                    };
+                    let (a, b) = (g(&mut rng), g(&mut rng));
+                    let f = match it % 8 { 0 => 0.0, 1 => 1.0, 2 => -1.0, 3 => 1.5, 4 => -1e-9, 5 => 1.0 + 1e-6, 6 => 0.5, _ => rng.range(-0.5, 1.5) } as $T;
+                    let fc = f.max(0.0).min(1.0);
+                    let got = a.mix(b, f);
+                    let want = a.mix(b, fc);
+                    let mut asg = a;
+                    asg.mix_assign(b, f);
+                    let arr4 = |c: &PreAlpha<rgb::Rgb<Lin, $T>>| [c.color.red as f64, c.color.green as f64, c.color.blue as f64, c.alpha as f64];
+                    let (g4, w4, s4, a4, b4) = (arr4(&got), arr4(&want), arr4(&asg), arr4(&a), arr4(&b));
+                    mm.evals(3);
+                    let inp = || json!({"a": fvec(&a4), "b": fvec(&b4), "factor": f as f64});
+                    if g4.map(f64::to_bits) != w4.map(f64::to_bits) {
+                        mm.violate($name, "factor_outside_unit_interval_not_nearest_end", inp(), fvec(&g4), fvec(&w4), "");
+                    }
+                    if g4.map(f64::to_bits) != s4.map(f64::to_bits) {
+                        mm.violate($name, "mix_assign_differs", inp(), fvec(&s4), fvec(&g4), "");
+                    }
+                    let u = if core::mem::size_of::<$T>() == 4 { 2.4e-7 } else { 4.5e-16 };
+                    for k in 0..4 {
+                        let (lo, hi) = (a4[k].min(b4[k]), a4[k].max(b4[k]));
+                        let lerp = a4[k] + (fc as f64) * (b4[k] - a4[k]);
+                        if !(g4[k] >= lo - 4.0 * u && g4[k] <= hi + 4.0 * u) || !((g4[k] - lerp).abs() <= 8.0 * u) {
+                            mm.violate($name, "component_not_between_inputs_or_not_the_lerp", inp(), fvec(&g4), json!({"lerp": lerp, "component": k}), "");
+                            break;
+                        }
+                    }
+                    mm.cell_s(&format!("{}{}", $name, it % 8));
+                }
+            }};
+        }
+        pre_mix!(f32, "PreAlpha<Rgb<Linear<Srgb>>>/f32");
+        pre_mix!(f64, "PreAlpha<Rgb<Linear<Srgb>>>/f64");
     }
     if only("lighten_darken") {
         for_floats!(all_light,);
